@@ -1,6 +1,6 @@
 (** * Specification for C12: which names are visible where.
     One flat set of visible names is threaded through the statement tree: a declaration extends it for what
-    follows in the same scope; every block, loop (header and body) and if (both branches share one) opens a
+    follows in the same scope; every block, loop (header and body) and each branch of an if opens a
     scope whose additions are dropped at its end.  Globals and parameters are visible in the whole body.
     Two conditions: no declaration of a visible name ([decl_*]) and no use of an invisible one ([use_*]). *)
 From Coq Require Import String ZArith List Bool.
@@ -36,7 +36,7 @@ Fixpoint decl_stmt (vis : list string) (s : stmt) : bool * list string :=
   | SBlock b => (thread decl_stmt vis b, vis)
   | SIf _ t f =>
       match decl_stmt vis t with
-      | (true, vis1) => match f with Some f' => (fst (decl_stmt vis1 f'), vis) | None => (true, vis) end
+      | (true, _) => match f with Some f' => (fst (decl_stmt vis f'), vis) | None => (true, vis) end
       | (false, _) => (false, vis)
       end
   | SFor init _ _ b =>
@@ -77,10 +77,7 @@ Fixpoint use_stmt (vis : list string) (s : stmt) : bool * list string :=
   | SRet e => (bound vis e, vis)
   | SBlock b => (thread use_stmt vis b, vis)
   | SIf c t f =>
-      (bound vis (Some c) &&
-       match use_stmt vis t with
-       | (ok, vis1) => ok && match f with Some f' => fst (use_stmt vis1 f') | None => true end
-       end, vis)
+      (bound vis (Some c) && fst (use_stmt vis t) && match f with Some f' => fst (use_stmt vis f') | None => true end, vis)
   | SFor init c n b =>
       let '(ok0, vis0) := match init with Some (_, x, i) => (bound (x :: vis) i, x :: vis) | None => (true, vis) end in
       (ok0 && bound vis0 c && bound vis0 n && fst (use_stmt vis0 b), vis)
